@@ -123,8 +123,8 @@ CHECKS = {
     'C18': dict(
         level='exploration',
         technique='Hypothesis-generated pipelines submitted through the real ServiceBackend._async_run against a recording fake batch client; harness-owned token/uid draws make path collisions searchable; known defects excluded by construction in guarded shards',
-        text='~16k pipelines per quick run: producer upload location == consumer download location, consumer is a child of the producer, every reference replaced by its quoted local path and nothing else, distinct resources have distinct paths.',
-        note='ServiceBackend is instantiated without network (fake client/fs); five known findings are listed (four unguarded shards re-find them, twelve guarded shards search behind them); one defect (job token dedup) was fixed.'),
+        text='~16k pipelines of Bash and Python jobs per quick run (~70% contain a PythonJob, ~50% a call, ~38% a converted result; PythonResults, their as_str/as_repr/as_json files and the pickled function / argument files are resources too): producer upload location == consumer download location, consumer is a child of the producer, every reference replaced by its quoted local path and nothing else, distinct resources have distinct paths.',
+        note='ServiceBackend is instantiated without network (fake client/fs); dill is a pickle-backed shim, so PythonJob callables are module-level functions of the check and no python job is executed; five known findings are listed (four unguarded shards re-find them, twelve guarded shards search behind them); one defect (job token dedup) was fixed; builtin callables (run() raises from inspect.getsource) are excluded by construction and counted until that finding is listed.'),
     'C30': dict(
         level='exploration',
         technique='Hypothesis-generated event histories (pushes, reviews, labels, statuses, batch completions, target moves, delayed delivery) plus a generated fault plan (any GitHub / Batch client call fails before taking effect: 5xx, 403, timeout, disconnect; single call or outage) against a ground-truth fake GitHub/Batch with a monitor at the instant of PUT .../merge',
